@@ -1089,43 +1089,75 @@ impl<'a> MCtx<'a> {
         doc.defs.insert(at, c);
         Some(Mutant { doc, label: self.label("5.5.1.1", "document", "duplicate-fragment-name") })
     }
+    /// A second root field for a subscription (5.2.3.1). The second field is a copy of the ordinary root field under
+    /// another alias, or the meta field `__typename` (plain or aliased) — a response key like any other (spec
+    /// CollectFields). It stands beside the ordinary field (before or after it), under an untyped inline fragment with
+    /// `@include(if: true)`, under `... on <Root>`, or behind one or two levels of named fragments. A document without
+    /// a subscription gets one (`subscription ZzSub { <a root field> }`) when the schema has a subscription root.
     pub fn two_subscription_roots(&mut self) -> Option<Mutant> {
-        let subs: Vec<usize> = self.doc.defs.iter().enumerate().filter(|(_, d)| matches!(d, ExecDef::Op(o) if o.kind == OpKind::Subscription)).map(|(i, _)| i).collect();
-        let i = pick(self.rng, &subs)?;
         let root = self.sch.m.subscription.clone()?;
         let mut doc = self.doc.clone();
-        let how = self.rng.below(3);
-        let mut second = match &doc.defs[i] {
+        let mut subs: Vec<usize> = doc.defs.iter().enumerate().filter(|(_, d)| matches!(d, ExecDef::Op(o) if o.kind == OpKind::Subscription)).map(|(i, _)| i).collect();
+        if subs.is_empty() {
+            if doc.defs.iter().any(|d| matches!(d, ExecDef::Op(o) if o.name.is_none())) {
+                return None;
+            }
+            let fields = self.sch.m.type_def(&root)?.fields.clone();
+            let usable: Vec<&FieldDef> = fields.iter().filter(|f| f.args.iter().all(|a| !a.ty.is_non_null() || a.default.is_some())).collect();
+            if usable.is_empty() {
+                return None;
+            }
+            let f = usable[self.rng.below(usable.len())];
+            let sel = if self.sch.m.is_composite(f.ty.unwrapped()) { Some(vec![Sel::field("__typename")]) } else { None };
+            let one = Sel::Field { alias: None, name: f.name.clone(), name_pos: p0(), args: vec![], dirs: vec![], sel };
+            doc.defs.push(ExecDef::Op(OpDef { kind: OpKind::Subscription, name: Some(("ZzSub".into(), p0())), vars: vec![], dirs: vec![], sel: vec![one], pos: p0(), shorthand: false }));
+            subs.push(doc.defs.len() - 1);
+        }
+        let i = pick(self.rng, &subs)?;
+        let first = match &doc.defs[i] {
             ExecDef::Op(o) => o.sel[0].clone(),
             _ => return None,
         };
-        if let Sel::Field { alias, .. } = &mut second {
-            *alias = Some(("zz_second".into(), p0()));
-        } else {
-            return None;
-        }
-        let class = match how {
-            0 => {
-                if let ExecDef::Op(o) = &mut doc.defs[i] {
-                    o.sel.push(second);
+        let Sel::Field { .. } = &first else { return None };
+        let what = self.rng.below(4);
+        let (second, what_name) = match what {
+            0 | 1 => {
+                let mut c = first.clone();
+                if let Sel::Field { alias, .. } = &mut c {
+                    *alias = Some(("zz_second".into(), p0()));
                 }
-                "subscription-root/direct"
+                (c, "ordinary")
             }
-            1 => {
-                if let ExecDef::Op(o) = &mut doc.defs[i] {
-                    o.sel.push(Sel::Inline { cond: if self.rng.coin() { Some((root.clone(), p0())) } else { None }, dirs: vec![], sel: vec![second], pos: p0() });
-                }
-                "subscription-root/inline-fragment"
+            2 => (Sel::field("__typename"), "__typename"),
+            _ => (Sel::Field { alias: Some(("zz_t".into(), p0())), name: "__typename".into(), name_pos: p0(), args: vec![], dirs: vec![], sel: None }, "aliased-__typename"),
+        };
+        let spread = |n: &str| Sel::Spread { name: n.into(), name_pos: p0(), dirs: vec![], pos: p0() };
+        let frag = |n: &str, on: &str, sel: Vec<Sel>| ExecDef::Frag(FragDef { name: n.into(), name_pos: p0(), cond: on.into(), cond_pos: p0(), dirs: vec![], sel, pos: p0() });
+        let how = self.rng.below(5);
+        let (extra, how_name): (Sel, &str) = match how {
+            0 => (second, "direct"),
+            1 => (Sel::Inline { cond: None, dirs: vec![Dir::new("include", vec![Arg::new("if", Val::Bool(true, p0()))])], sel: vec![second], pos: p0() }, "untyped-inline-with-include"),
+            2 => (Sel::Inline { cond: Some((root.clone(), p0())), dirs: vec![], sel: vec![second], pos: p0() }, "inline-on-root"),
+            3 => {
+                doc.defs.push(frag("ZzSubRoot", &root, vec![second]));
+                (spread("ZzSubRoot"), "named-fragment")
             }
             _ => {
-                if let ExecDef::Op(o) = &mut doc.defs[i] {
-                    o.sel.push(Sel::Spread { name: "ZzSubRoot".into(), name_pos: p0(), dirs: vec![], pos: p0() });
-                }
-                doc.defs.push(ExecDef::Frag(FragDef { name: "ZzSubRoot".into(), name_pos: p0(), cond: root.clone(), cond_pos: p0(), dirs: vec![], sel: vec![second], pos: p0() }));
-                "subscription-root/fragment-spread"
+                doc.defs.push(frag("ZzSubRoot2", &root, vec![second]));
+                doc.defs.push(frag("ZzSubRoot", &root, vec![spread("ZzSubRoot2")]));
+                (spread("ZzSubRoot"), "two-named-fragments")
             }
         };
-        Some(Mutant { doc, label: self.label("5.2.3.1", class, "two-subscription-root-fields") })
+        let before = self.rng.coin();
+        if let ExecDef::Op(o) = &mut doc.defs[i] {
+            if before {
+                o.sel.insert(0, extra);
+            } else {
+                o.sel.push(extra);
+            }
+        }
+        let mutation = format!("two-subscription-root-fields({how_name},{})", if before { "before" } else { "after" });
+        Some(Mutant { doc, label: self.label("5.2.3.1", &format!("subscription-root/second-field-is-{what_name}"), &mutation) })
     }
 
     // ---- fragments ----
@@ -1764,22 +1796,43 @@ pub fn nullable_with_default(rng: &mut Rng, sch: &Sch, doc: &Doc, cfg: &GenCfg) 
     }
 }
 
-/// `subscription { f }` → `subscription { f f }`: one response key, still a single root field
-pub fn duplicate_subscription_root(doc: &Doc) -> Option<Doc> {
+/// `subscription { f }` → the same response key selected a second time — directly, under `... on <Root>`, under an
+/// untyped inline fragment with `@include(if: true)`, or behind one / two named fragments: still ONE root field
+pub fn duplicate_subscription_root(rng: &mut Rng, root: Option<&str>, doc: &Doc) -> Option<(Doc, &'static str)> {
+    let root = root?;
     let mut out = doc.clone();
-    let mut changed = false;
-    for d in out.defs.iter_mut() {
+    let how = rng.below(5);
+    let mut changed = None;
+    let mut new_frags: Vec<ExecDef> = vec![];
+    let frag = |n: String, on: &str, sel: Vec<Sel>| ExecDef::Frag(FragDef { name: n, name_pos: p0(), cond: on.into(), cond_pos: p0(), dirs: vec![], sel, pos: p0() });
+    let spread = |n: &str| Sel::Spread { name: n.into(), name_pos: p0(), dirs: vec![], pos: p0() };
+    for (k, d) in out.defs.iter_mut().enumerate() {
         if let ExecDef::Op(o) = d {
-            if o.kind == OpKind::Subscription && o.sel.len() == 1 {
+            if o.kind == OpKind::Subscription && o.sel.len() == 1 && matches!(o.sel[0], Sel::Field { .. }) {
                 let c = o.sel[0].clone();
-                o.sel.push(c);
-                changed = true;
+                let (extra, name) = match how {
+                    0 => (c, "direct"),
+                    1 => (Sel::Inline { cond: Some((root.to_string(), p0())), dirs: vec![], sel: vec![c], pos: p0() }, "inline-on-root"),
+                    2 => (Sel::Inline { cond: None, dirs: vec![Dir::new("include", vec![Arg::new("if", Val::Bool(true, p0()))])], sel: vec![c], pos: p0() }, "untyped-inline-with-include"),
+                    3 => {
+                        new_frags.push(frag(format!("ZzSame{k}"), root, vec![c]));
+                        (spread(&format!("ZzSame{k}")), "named-fragment")
+                    }
+                    _ => {
+                        new_frags.push(frag(format!("ZzSameB{k}"), root, vec![c]));
+                        new_frags.push(frag(format!("ZzSame{k}"), root, vec![spread(&format!("ZzSameB{k}"))]));
+                        (spread(&format!("ZzSame{k}")), "two-named-fragments")
+                    }
+                };
+                if rng.coin() {
+                    o.sel.insert(0, extra);
+                } else {
+                    o.sel.push(extra);
+                }
+                changed = Some(name);
             }
         }
     }
-    if changed {
-        Some(out)
-    } else {
-        None
-    }
+    out.defs.extend(new_frags);
+    changed.map(|n| (out, n))
 }
